@@ -250,6 +250,30 @@ def wide_file(ck: Check, root: Node, reqs: list[str], impl: list[str], inputs: l
         reqs.append(f"LAY rows {CAP} {kinds} {hexs(data)} {toks}")
         impl.append(show_recs(got) + (" error" if err else " ok"))
         inputs.append({**inp, "what": "rows of the RECFM N file"})
+    # RECFM V carries each row's length in 16 bits: rows of more than 32764 bytes (length word >= 32768) between small ones
+    import stingray.estruct as E
+    big_tbl = Node(5, "TBL", odo=(0, 999, "CT"), children=[Node(10, "CELL", pic="X(60)", width=60)])
+    big_root = Node(1, "LONG-REC", children=[Node(5, "CT", pic="9(3)", width=3), big_tbl, Node(5, "TAIL", pic="X(2)", width=2)])
+    number_fillers(big_root)
+    btext = render([big_root])
+    bschema = load(build_docs(btext)[0])
+    counts = [2, 546, 0, 547, 999, 1]          # 546 * 60 + 5 = 32765 bytes
+    recs = [build_record(big_root, {"CT": c}, salt=k) for k, c in enumerate(counts)]
+    ck.case(("wide-V", tuple(counts)), feature="file/V/rows-over-32764-bytes")
+    ck.oracle_evaluations += 1
+    got2: list[bytes] = []
+    err2 = None
+    try:
+        wb = COBOL_EBCDIC_File("x.data", file_object=io.BytesIO(write_v(recs)), recfm_class=E.RECFM_V, lrecl=1)
+        for row in wb.sheet("").set_schema(bschema).rows():
+            got2.append(bytes(row.instance[:row.nav.location.end]))  # type: ignore[attr-defined]
+            if len(got2) > len(recs) + 5:
+                break
+    except BaseException as ex:  # noqa: BLE001
+        err2 = err_enum(ex)
+    if err2 or got2 != recs:
+        ck.fail("odo-file", f"RECFM V, rows of {[len(r) for r in recs]} bytes: read back {[len(g) for g in got2]}" + (f", {err2}" if err2 else ""),
+                {"copybook": btext, "recfm": "V", "counts": counts})
 
 
 def tiny_records(ck: Check) -> None:
